@@ -138,16 +138,25 @@ class C03(Prop):
             nn = rng.randint(1, 5)
             nodes[0]["opts"] = {"cluster": {"version": rng.randint(1, 99), "nodes": [
                 ["node%d.cache.example" % i, "10.1.0.%d" % (i + 1), 11211] for i in range(nn)]}}
+        tok_inside = False
         if m == "raw_command":
-            # an end token that also occurs inside the reply ends the read early by definition; what
-            # happens to the rest then depends on buffering, which is not what C03 is about
-            for st in steps:
-                if st["t"] == "direct":
-                    v = codec.dec(st["value"])
-                    st["value"] = E(v.replace(b"END", b"EnD").replace(b"\n\r\n", b"\n\r_"))
+            # an end token that also occurs inside the reply ends the read early by definition - at the FIRST
+            # occurrence, however the stream is cut; what happens to the rest then depends on buffering, which
+            # is not what C03 is about.  So: mostly the values are kept free of the token; in the remaining
+            # scenarios they are left as they are and only the probe call's own result is judged.
+            if rng.random() < 0.7:
+                for st in steps:
+                    if st["t"] == "direct":
+                        v = codec.dec(st["value"])
+                        st["value"] = E(v.replace(b"END", b"EnD").replace(b"\n\r\n", b"\n\r_"))
+            else:
+                tok_inside = True
         steps.append({"t": "call", "m": m, "a": a, "k": k, "tag": "probe"})
         steps.append({"t": "call", "m": "get", "a": [E(b"k2")], "k": {}, "tag": "follow"})
-        return {"property": self.id, "world": w, "steps": steps}
+        ent = {"property": self.id, "world": w, "steps": steps}
+        if tok_inside:
+            ent["tok_inside"] = True
+        return ent
 
     def baseline_of(self, scn):
         b = copy.deepcopy(scn)
@@ -250,8 +259,11 @@ class C03(Prop):
     def judge(self, scn, res):
         out = []
         base = res.extra["baseline"]
+        tok_inside = scn.get("tok_inside")
         for rec in res.calls:
             if rec.step < 0:
+                continue
+            if tok_inside and scn["steps"][rec.step].get("tag") != "probe":
                 continue
             b = base.get(rec.step)
             same = False
@@ -268,7 +280,8 @@ class C03(Prop):
                                 pieces=rec.pieces[:40]))
         # wire-level observations count only when the whole-reply delivery of the same entry does not show them
         # (e.g. a raw_command whose end token never comes waits in both)
-        out.extend(v for v in ownership_violations(res) if (v["oracle"], v["step"]) not in base.get("own", ()))
+        if not tok_inside:
+            out.extend(v for v in ownership_violations(res) if (v["oracle"], v["step"]) not in base.get("own", ()))
         out.sort(key=lambda v: (v["step"] if v["step"] is not None else -1))
         return out
 
